@@ -176,10 +176,18 @@ class Report:
         os.makedirs(os.path.join(VERIF, "evidence"), exist_ok=True)
         with open(os.path.join(VERIF, "evidence", self.prop + ".json"), "w") as fh:
             json.dump(ev, fh, indent=1)
-        print("[%s/%s] obligations=%d auto=%d reviewed=%d known=%d violations=%d wall=%.1fs" %
-              (self.prop, self.tier, len(self.obs), len(auto), len(rev), len(known), len(viol), wall))
+        out = ["[%s/%s] obligations=%d auto=%d reviewed=%d known=%d violations=%d wall=%.1fs" %
+               (self.prop, self.tier, len(self.obs), len(auto), len(rev), len(known), len(viol), wall)]
         for r, d in sorted(per_rule.items()):
-            print("   %-22s %s" % (r, " ".join("%s=%d" % kv for kv in d.items() if kv[1])))
-        for l in lines:
-            print(l)
+            out.append("   %-22s %s" % (r, " ".join("%s=%d" % kv for kv in d.items() if kv[1])))
+        out += lines
+        try:
+            sys.stdout.write("\n".join(out) + "\n")
+            sys.stdout.flush()
+        except BrokenPipeError:
+            # the reader went away (e.g. `| head`): the verdict is still the exit status and the evidence file
+            try:
+                sys.stdout = open(os.devnull, "w")
+            except OSError:
+                pass
         return 1 if viol else 0
